@@ -49,18 +49,52 @@ def run(chk):
         r01_234(chk, cr)
     if chk.want("R01.5"):
         r01_5(chk, repo, cr)
+    chk.rule("R01.6", "memo discipline of class Crystal (= C14 R14.2): every state-changing method drops every memoised quantity, including any newly introduced cache", 2)
+    if chk.want("R01.6"):
+        from .c14 import crystal_memo_rule
+        crystal_memo_rule(chk, "R01.6")
     chk.assume("which images coincide (KD-tree distances within the tolerance) and float wrap behaviour at x = -K are not decided")
     chk.assume("pair iteration of the sparse distance matrix is row-major, so chains of coincident images sum into the lowest index")
     chk.assume("the operation list is the group (C02) and decode/apply are the affine map (C11)")
 
 
+def _identity_first_partition(ev, ops_key="self.symmetry_operations"):
+    """other = ops[:u] + ops[u+1:] with u located by the identity test -> (ok, detail)."""
+    tests = [e for e in ev.events if e.kind == "test" and e.loops]
+    oku = any((f"(eq {M.IDENTITY} " in e.value.key() and ".integer_code" in e.value.key()) or ".is_identity()" in e.value.key() for e in tests)
+    sl = []
+    for e in ev.events:
+        if e.value is None:
+            continue
+        for a in find_atoms(e.value, lambda a: a[0] == "sub" and a[1].key() == ops_key):
+            s = a[2][0].as_atom()
+            if s and s[0] == "slice":
+                sl.append((s[1], s[2]))
+    sl = list({(a.key(), b.key()): (a, b) for a, b in sl}.values())
+    okpart = False
+    if len(sl) == 2:
+        heads = [x for x in sl if x[0].key() == "None"]
+        tails = [x for x in sl if x[1].key() == "None"]
+        if len(heads) == 1 and len(tails) == 1:
+            u = heads[0][1]
+            okpart = tails[0][0] == u + 1 and u.as_atom() is not None and u.as_atom()[0] == "after" and u.as_atom()[1] == "unity"
+    return oku, okpart, [(str(a), str(b)) for a, b in sl]
+
+
 def r01_1(chk, sg, cr):
+    from .generic import dtype_inheritance_sites
     q = "SpaceGroup.apply_all_symops"
-    ev = sg.ev(q, opaque={"other_symops"})
+    ev = sg.ev(q, opaque={"other_symops", "symops"})
     chk.saw(SG, q)
     coords = P.name(ev.param_names[1])
     n = P.atom(("call", P.name("len"), (coords,)))
     nops = P.atom(("call", P.name("len"), (P.name("self"),)))
+    # dtype: the coordinate buffer must not inherit an integer dtype from the caller's array
+    for e, why in dtype_inheritance_sites(ev, {coords.key()}):
+        chk.ob("R01.1", SG, q, "the output coordinate buffer has a floating dtype of its own (integer input must not truncate the images)", False,
+               node=e.node, fingerprint="dtype", expected="np.empty((n, 3)) or an explicit float dtype", found=why)
+    chk.ob("R01.1", SG, q, "no output buffer inherits its dtype from the caller's coordinates", not dtype_inheritance_sites(ev, {coords.key()}),
+           fingerprint="dtype-ok")
     bufs = {}
     for e in ev.events:
         if e.kind == "assign" and e.value.as_atom() and e.value.as_atom()[0] == "obj":
@@ -69,6 +103,9 @@ def r01_1(chk, sg, cr):
                 shape = init[2][0]
                 it = seq_items(shape)
                 bufs[e.name] = (e.value, it[0] if it else shape)
+    form_b = not bufs and any(k[1] == "symops" for k in ev.defs)
+    if form_b:
+        return r01_1_ordered(chk, sg, cr, ev, q, coords, n)
     chk.need(len(bufs) == 2, f"{q}: expected two output buffers, found {list(bufs)}")
     for name, (obj, size) in bufs.items():
         chk.ob("R01.1", SG, q, f"buffer '{name}' holds nsites * len(group) entries", size == n * nops, fingerprint=f"size:{name}",
@@ -85,28 +122,11 @@ def r01_1(chk, sg, cr):
             (e.value.key() == coords.key() or e.value == P.const(M.IDENTITY))
     chk.ob("R01.1", SG, q, "block 0 holds the input coordinates with the identity's code as generator",
            len(ident_ok) == 2 and all(ident_ok.values()), found=str(ident_ok))
-    # unity search
-    tests = [e for e in ev.events if e.kind == "test" and e.loops]
-    oku = any((f"(eq {M.IDENTITY} " in e.value.key() and ".integer_code" in e.value.key()) or ".is_identity()" in e.value.key() for e in tests)
+    oku, okpart, sl = _identity_first_partition(ev)
     chk.ob("R01.1", SG, q, "the identity is located by its packed code among the group's operations", oku)
-    # other operations: two slices partitioning the list minus the identity's index
     other = [v for k, v in ev.defs.items() if k[1] == "other_symops"]
     chk.need(other, f"{q}: list of the remaining operations not found")
-    sl = []
-    for a in find_atoms(other[-1], lambda a: a[0] == "sub" and a[1].key() == "self.symmetry_operations"):
-        s = a[2][0].as_atom()
-        if s and s[0] == "slice":
-            sl.append((s[1], s[2]))
-    u = None
-    okpart = False
-    if len(sl) == 2:
-        heads = [x for x in sl if x[0].key() == "None"]
-        tails = [x for x in sl if x[1].key() == "None"]
-        if len(heads) == 1 and len(tails) == 1:
-            u = heads[0][1]
-            okpart = tails[0][0] == u + 1 and u.as_atom() is not None and u.as_atom()[0] == "after" and u.as_atom()[1] == "unity"
-    chk.ob("R01.1", SG, q, "the remaining operations are ops[:u] and ops[u+1:] (each non-identity operation exactly once)", okpart,
-           found=[(str(a), str(b)) for a, b in sl])
+    chk.ob("R01.1", SG, q, "the remaining operations are ops[:u] and ops[u+1:] (each non-identity operation exactly once)", okpart, found=sl)
     chk.need(len(loop) == 2, f"{q}: expected two block stores in the loop")
     li = loop[0].loops[-1]
     chk.ob("R01.1", SG, q, "blocks are numbered from 1 (enumerate(..., start=1))", li.kind == "enumerate" and li.lo == P.const(1),
@@ -125,8 +145,7 @@ def r01_1(chk, sg, cr):
     chk.ob("R01.1", SG, q, "coordinate block and generator block of operation i use the same slice [i*n : (i+1)*n]",
            same and lo == i * n and hi == (i + 1) * n, expected=f"[{i * n}, {(i + 1) * n})",
            found={k: (str(a), str(b)) for k, (a, b) in slices.items()})
-    # same operation s in both
-    op = P.atom(("sub", other[-1] if False else P.atom([k for k in ev.defs if k[1] == "other_symops"][-1]), (i - 1,)))
+    op = P.atom(("sub", P.atom([k for k in ev.defs if k[1] == "other_symops"][-1]), (i - 1,)))
     vc = [v for v in vals.values() if "integer_code" not in v.key()]
     vg = [v for v in vals.values() if "integer_code" in v.key()]
     okpair = len(vc) == 1 and len(vg) == 1 and vg[0] == P.atom(("attr", op, "integer_code")) and \
@@ -137,18 +156,69 @@ def r01_1(chk, sg, cr):
            found={k: str(v) for k, v in vals.items()})
     ret = seq_items(ev.returns[-1].value)
     okret = bool(ret and len(ret) == 2 and ret[0].as_atom()[1] == "generator_symop" and ret[1].as_atom()[1] == "transformed")
-    # consumer unpacks (sym, uc_pos)
+    _consumer_unpack(chk, sg, cr, q, okret, ev)
+
+
+def _consumer_unpack(chk, sg, cr, q, okret, ev):
     cv = cr.ev("Crystal.unit_cell_atoms", opaque={"sym", "uc_pos"})
     sym = [v for k, v in cv.defs.items() if k[1] == "sym"]
     pos = [v for k, v in cv.defs.items() if k[1] == "uc_pos"]
     okun = bool(sym and pos and sym[0].key().endswith("[0]") and pos[0].key().endswith("[1]") and "apply_all_symops" in sym[0].key())
     chk.ob("R01.1", SG, q, "the function returns (generator codes, coordinates) and unit_cell_atoms unpacks them in that order",
            okret and okun, found=f"{ev.returns[-1].value} / {sym} {pos}")
-    # __call__ forwards to apply
     so = chk.repo.module("crystal/symmetry_operation.py")
     c = so.ev("SymmetryOperation.__call__")
     chk.ob("R01.1", "crystal/symmetry_operation.py", "SymmetryOperation.__call__", "calling an operation applies it",
            c.returns and c.returns[0].value.key() == f"self.apply({c.param_names[1]})", found=str(c.returns[0].value) if c.returns else None)
+
+
+def r01_1_ordered(chk, sg, cr, ev, q, coords, n):
+    """Alternative layout: ops = self.ordered_symmetry_operations(); codes = repeat([s.integer_code for s in ops], n);
+    coordinates = tile(coordinates, (len(ops), 1)) with blocks 1.. overwritten by s(coordinates)."""
+    ops_atoms = [k for k in ev.defs if k[1] == "symops"]
+    OPS = P.atom(ops_atoms[-1])
+    chk.ob("R01.1", SG, q, "the operation list is the group's identity-first ordering", ev.defs[ops_atoms[-1]].key() == "self.ordered_symmetry_operations()",
+           found=str(ev.defs[ops_atoms[-1]]))
+    ov = sg.ev("SpaceGroup.ordered_symmetry_operations")
+    chk.saw(SG, "SpaceGroup.ordered_symmetry_operations")
+    oku, okpart, sl = _identity_first_partition(ov)
+    head = ov.returns[-1].value.key().startswith("(concat ((tuple (self.symmetry_operations[(after unity")
+    chk.ob("R01.1", SG, "SpaceGroup.ordered_symmetry_operations", "identity first, then ops[:u] and ops[u+1:] (every operation exactly once)",
+           oku and okpart and head, found=f"{sl} -> {str(ov.returns[-1].value)[:120]}")
+    gen = [e for e in ev.events if e.kind == "assign" and e.name == "generator_symop"]
+    okg = False
+    if gen:
+        a = obj_init(gen[-1].value).as_atom()
+        if a and call_name(a) == "numpy.repeat" and len(a[2]) == 2:
+            okg = f"{OPS}[" in a[2][0].key() and ".integer_code" in a[2][0].key() and a[2][1].key() in (n.key(), "nsites") and "comp ListComp" in a[2][0].key()
+    chk.ob("R01.1", SG, q, "generator codes are each operation's code repeated nsites times (operation-major, like the coordinate blocks)", okg,
+           found=str(obj_init(gen[-1].value))[:160] if gen else None)
+    tr = [e for e in ev.events if e.kind == "assign" and e.name == "transformed"]
+    okt = False
+    if tr:
+        a = obj_init(tr[-1].value).as_atom()
+        if a and call_name(a) == "numpy.tile":
+            shp = seq_items(a[2][1]) if len(a[2]) > 1 else None
+            okt = a[2][0].key() == coords.key() and shp is not None and shp[0].key() == f"len({OPS})" and shp[1] == P.const(1)
+        elif a and call_name(a) in ("numpy.empty", "numpy.zeros"):
+            okt = True
+    chk.ob("R01.1", SG, q, "block 0 of the coordinate buffer is the input (identity image)", okt, found=str(obj_init(tr[-1].value))[:120] if tr else None)
+    loop = [e for e in ev.events if e.kind == "store" and e.loops and "transformed" in e.target.key()]
+    okl = False
+    if len(loop) == 1:
+        e = loop[0]
+        li = e.loops[-1]
+        i = li.index
+        s = e.target.as_atom()[2][0].as_atom()
+        it = li.iter.as_atom() if li.iter is not None else None
+        tail = bool(it and it[0] == "sub" and it[1].key() == OPS.key() and it[2][0].key() == "(slice 1 None None)")
+        op = P.atom(("sub", li.iter, (i - 1,)))
+        okl = li.kind == "enumerate" and li.lo == P.const(1) and tail and s and s[0] == "slice" and s[1] == i * n and s[2] == (i + 1) * n \
+            and e.value.as_atom() and e.value.as_atom()[1].key() in (op.key(), f"{op}.apply") and e.value.as_atom()[2][0].key() == coords.key()
+    chk.ob("R01.1", SG, q, "block i (i >= 1) holds ops[i](coordinates)", bool(okl), found=str(loop[0].value)[:120] if loop else None)
+    ret = seq_items(ev.returns[-1].value)
+    okret = bool(ret and len(ret) == 2 and "generator_symop" in ret[0].key() and "transformed" in ret[1].key())
+    _consumer_unpack(chk, sg, cr, q, okret, ev)
 
 
 def r01_234(chk, cr):
@@ -215,8 +285,10 @@ def r01_234(chk, cr):
                found=f"{d.get('cart_pos')} vs {d.get('frac_pos')}")
     if chk.want("R01.3"):
         w = wrap_of(defs["translated"])
-        chk.ob("R01.3", CR, q, "positions are wrapped with a recognised idiom whose range is [0,1) (fmod(x + K, 1), K >= 0)",
-               w is not None and w[0].key() == "$uc_pos", found=str(defs["translated"]))
+        chk.ob("R01.3", CR, q, "positions are wrapped with an idiom whose range is the half-open [0,1): fmod(x + K, 1) with an integer K >= 1 "
+               "(x % 1 returns exactly 1.0 for x = -1e-17, which lies outside the cell and is never merged with its image at 0.0)",
+               w is not None and w[0].key() == "$uc_pos" and w[1] >= 1, fingerprint="wrap-idiom",
+               expected="numpy.fmod(uc_pos + K, 1), K >= 1", found=str(defs["translated"]))
         if w is not None and w[1] > 0:
             chk.assume(f"np.fmod(x + {w[1]}, 1) lies in [0,1) provided x >= -{w[1]} (fractional coordinates of real structures)")
         tr = defs.get("tree")
